@@ -184,6 +184,48 @@ def catalogue_c09(tier):
     return cs
 
 
+def catalogue_c04(tier):
+    """C04 across a thread hand-over: items, then an error, through observe_on / subscribe_on / delay; retry and
+    on_error_resume_next around a source whose failing attempt runs on another thread (k-th subscription differs).
+    (This crate counts attempts: retry(2) = the first subscription plus one retry.)"""
+    cs = []
+    oo = lambda x: T('observe_on', ins=[x])
+    inc = lambda x: T('map', 1, 'inc', ins=[x])
+
+    def ex(c, expect):
+        c['expect'] = [[k, v] for k, v in expect]
+        return c
+    roots = {'direct': (oo(S(1)), 0), 'below-map': (inc(oo(S(1))), 1), 'above-map': (oo(inc(S(1))), 1), 'stacked': (oo(oo(S(1))), 0)}
+    if tier == 'thorough':
+        roots['mid-chain'] = (T('filter', 0, 'true', ins=[oo(inc(S(1)))]), 1)
+        roots['delay-above'] = (T('delay', 30, ins=[oo(S(1))]), 0)
+    for nm, (root, d) in roots.items():
+        cs.append(ex(case('c04/observe_on-%s/items-error' % nm, root, [items(1, 2) + [E(1, 'e', 5)]], tags=['errpass']), [('n', 11 + d), ('n', 12 + d), ('e', 5)]))
+        cs.append(ex(case('c04/observe_on-%s/error-only' % nm, root, [[E(1, 'e', 6)]], tags=['errpass']), [('e', 6)]))
+    cs.append(ex(case('c04/delay/items-error', T('delay', 50, ins=[S(1)]), [items(1, 2) + [E(1, 'e', 5)]], tags=['errpass']), [('n', 11), ('n', 12), ('e', 5)]))
+    n = lambda v: {'k': 'n', 'v': v}
+    e7 = {'k': 'e', 'v': 7}
+    cc = {'k': 'c', 'v': 0}
+    pause = {'k': 's', 'v': 20}
+    fail_then_ok = [[n(1), e7], [n(2), cc]]
+    cold = lambda scripts: T('cold', 3, scripts=scripts)
+    acold = lambda scripts: T('acold', 3, scripts=scripts)
+    so = lambda x: T('subscribe_on', ins=[x])
+    cs.append(ex(case('c04/subscribe_on/items-error', so(cold([[n(1), n(2), e7]])), [], tags=['errpass']), [('n', 1), ('n', 2), ('e', 7)]))
+    cs.append(ex(case('c04/observe_on-cold/items-error', oo(cold([[n(1), n(2), e7]])), [], tags=['errpass']), [('n', 1), ('n', 2), ('e', 7)]))
+    cs.append(ex(case('c04/retry-once-over-subscribe_on', T('retry', 2, ins=[so(cold(fail_then_ok))]), [], tags=['errpass']), [('n', 1), ('n', 2), ('c', 0)]))
+    cs.append(ex(case('c04/retry-once-over-threaded-source', T('retry', 2, ins=[acold([[n(1), pause, e7], [n(2), cc]])]), [], tags=['errpass']), [('n', 1), ('n', 2), ('c', 0)]))
+    cs.append(ex(case('c04/retry-once-exhausted-threaded-source', T('retry', 2, ins=[acold([[n(1), e7], [n(2), {'k': 'e', 'v': 8}]])]), [], tags=['errpass']), [('n', 1), ('n', 2), ('e', 8)]))
+    cs.append(ex(case('c04/observe_on-over-retry-once', oo(T('retry', 2, ins=[cold(fail_then_ok)])), [], tags=['errpass']), [('n', 1), ('n', 2), ('c', 0)]))
+    cs.append(ex(case('c04/resume-just-over-observe_on', T('on_error_resume_next', 0, 'just', ins=[oo(S(1))]), [items(1, 1) + [E(1, 'e', 5)]], tags=['errpass']), [('n', 11), ('n', 9), ('c', 0)]))
+    cs.append(ex(case('c04/resume-error-over-threaded-source', T('on_error_resume_next', 0, 'error', ins=[acold([[n(1), e7]])]), [], tags=['errpass']), [('n', 1), ('e', 8)]))
+    if tier == 'thorough':
+        cs.append(ex(case('c04/retry_when-payload-over-threaded-source', T('retry_when', 7, 'payload', ins=[acold([[n(1), e7], [n(2), {'k': 'e', 'v': 8}]])]), [], tags=['errpass']), [('n', 1), ('n', 2), ('e', 8)]))
+        cs.append(ex(case('c04/retry-twice-over-observe_on-cold', T('retry', 3, ins=[oo(cold([[n(1), e7], [n(2), e7], [n(3), cc]]))]), [], tags=['errpass']), [('n', 1), ('n', 2), ('n', 3), ('c', 0)]))
+        cs.append(ex(case('c04/materialize-over-observe_on', T('dematerialize', ins=[T('materialize', ins=[oo(S(1))])]), [items(1, 1) + [E(1, 'e', 5)]], tags=['errpass']), [('n', 11), ('e', 5)]))
+    return cs
+
+
 def timed(c, period):
     c['period'] = period
     return c
@@ -288,7 +330,7 @@ def catalogue_c13(tier):
     return cs
 
 
-CATALOGUES = {'C07': catalogue_c07, 'C13': catalogue_c13, 'C08': catalogue_c08, 'C09': catalogue_c09, 'C15': catalogue_c15, 'C16': catalogue_c16, 'C18': catalogue_c18, 'C19': catalogue_c19, 'C05': catalogue_c05, 'C11': catalogue_c11, 'C12': catalogue_c12}
+CATALOGUES = {'C04': catalogue_c04, 'C07': catalogue_c07, 'C13': catalogue_c13, 'C08': catalogue_c08, 'C09': catalogue_c09, 'C15': catalogue_c15, 'C16': catalogue_c16, 'C18': catalogue_c18, 'C19': catalogue_c19, 'C05': catalogue_c05, 'C11': catalogue_c11, 'C12': catalogue_c12}
 
 
 # ------------------------------------------------------------------------------------------ engine
@@ -306,7 +348,7 @@ def explore(work, harness, cases, mode, bound, max_runs, seed, tag):
     for p in procs:
         out, err = p.communicate()
         if p.returncode != 0:
-            raise ToolError('harness conc failed: ' + err[-2000:])
+            raise ToolError('harness conc failed (rc %s): ' % p.returncode + err[-2000:])
         per_case += json.loads(out.strip().splitlines()[-1])['cases']
     scheds = {}
     for k in range(NPROC):
